@@ -189,6 +189,24 @@ impl<'a, 'b> Gn<'a, 'b> {
     }
     fn action(&mut self) -> Vec<S> {
         self.locals.clear();
+        // sometimes an action with more locals than the program has globals, all of them used at the end
+        if self.c.chance(1, 6) {
+            let k = 7 + self.c.below(8);
+            let mut v = Vec::new();
+            for i in 0..k {
+                let name = format!("loc{}", i);
+                let e = if i == 0 { self.int(1) } else { bin("+", id(&format!("loc{}", i - 1)), E::Int(1 + self.c.below(9) as i64)) };
+                self.locals.push(name.clone());
+                v.push(S::Let(name, e));
+            }
+            let mut sum = id("loc0");
+            for i in 1..k {
+                sum = bin("+", sum, bin("*", id(&format!("loc{}", i)), E::Int(1 + (i as i64 % 3))));
+            }
+            v.push(S::Expr(assign(id("g0"), bin("+", id("g0"), bin("%", sum, E::Int(1000))))));
+            v.push(S::Expr(call("say", vec![id(&format!("loc{}", k - 1))])));
+            return v;
+        }
         let n = 1 + self.c.below(4);
         (0..n).map(|_| self.action_stmt(1)).collect()
     }
@@ -207,7 +225,9 @@ fn gen_prog(c: &mut Choices, uniform: Option<u8>) -> Prog {
         Item::Stmt(S::Let("acc".into(), E::Arr(vec![]))),
         Item::Stmt(S::FnDef("bump".into(), vec!["x".into()], vec![S::Expr(assign(id("g0"), bin("+", id("g0"), id("x")))), S::Expr(id("g0"))])),
     ];
-    let nf = 1 + g.c.below(5);
+    // (now and then no per-packet filter at all: a program whose only filter is `@ end`)
+    let end_only = g.c.chance(1, 12);
+    let nf = if end_only { 0 } else { 1 + g.c.below(5) };
     let mut extra: Vec<Item> = Vec::new();
     let mut selecting = 0;
     for k in 0..nf {
@@ -240,7 +260,7 @@ fn gen_prog(c: &mut Choices, uniform: Option<u8>) -> Prog {
         }
     }
     items.extend(extra);
-    if g.c.chance(2, 3) {
+    if end_only || g.c.chance(2, 3) {
         g.locals.clear();
         let mut a = vec![S::Expr(call("say", vec![id("NP")])), S::Expr(call("say", vec![id("g0")])), S::Expr(call("say", vec![id("g1")])), S::Expr(call("say", vec![id("cnt")])), S::Expr(call("say", vec![call("len", vec![id("acc")])]))];
         if g.c.bool() {
